@@ -37,9 +37,9 @@ func (s *Service) VerifFetchAccountsForWallet(ctx context.Context, wallet e2wtyp
 	return accounts
 }
 
-// VerifRefreshFromWallets is refreshAccounts from the point where the wallets have been found in the
+// VerifMirrorRefreshAccounts is refreshAccounts from the point where the wallets have been found in the
 // stores: fetch from each wallet, then install the result.
-func (s *Service) VerifRefreshFromWallets(ctx context.Context, wallets []e2wtypes.Wallet) {
+func (s *Service) VerifMirrorRefreshAccounts(ctx context.Context, wallets []e2wtypes.Wallet) {
 	verificationRegexes := s.accountPathsToVerificationRegexes(s.accountPaths)
 	accounts := make(map[phase0.BLSPubKey]e2wtypes.Account)
 	for _, wallet := range wallets {
